@@ -72,6 +72,7 @@ func (p *c07) Rule() string {
 		"chain part: straight chains of n layouts, every n in 1..102 plus 150 (thorough: plus 200) for layouts/ placement and a subset (thorough: all) for relative placement with decoys in layouts/, default-base start, and explicit .vuego names; " +
 		"cycle part: cycles of length 1-4 entered after 0-3 links x {layouts/, relative, started by the default base, closing through the page, explicit .vuego names}; " +
 		"keys part: for keys ka and title every subset of defining sources {Fill, page front-matter, first layout, second layout} (16x16) x Fill kind {none,map,struct,*struct} x {named chain p->a->b, default chain p->base->a}, other keys and `content` random; " +
+		"appear part: one engine kept over a filesystem in which layouts/base.vuego, a layout next to the page and the second link of a chain appear and disappear between renders (5 histories x Load.Render / RenderFile), compared with a fresh engine on the same files after every change; " +
 		"samename part: 4 hand-built chains in which one bare layout name resolves to different files from different directories within a single chain (layouts/ fallback first and a file next to the naming layout later, the reverse, and two names crossed); " +
 		"datalayout part: page without a front-matter layout, no layouts/base.vuego, Fill data carrying layout in {a (chain a->b), b, a.vuego} x page in {p, sub/p} x page front-matter {keys, empty block}: no error, and the nest is the page alone or the chain the key names; " +
 		"rand part: seeded random file trees over {.,sub,layouts} x {a,b,c,base,p,q} with plain, ./, ../, dir/ and .vuego layout names, random front-matter keys, document-style bodies and Fill kinds. " +
@@ -491,7 +492,7 @@ func c07RandCase(r *core.RNG) c07Case {
 func (p *c07) nRand(ctx core.Ctx) int { return ctx.Pick(3000, 40000) }
 
 func (p *c07) Plan(ctx core.Ctx) int {
-	return len(c07GraphList()) + len(c07ChainSpecs(ctx)) + len(c07CycleSpecs()) + c07NKeys + c07NDataLayout + len(c07SameNameCases()) + c07NCfgLayout + p.nRand(ctx)
+	return len(c07GraphList()) + len(c07ChainSpecs(ctx)) + len(c07CycleSpecs()) + c07NKeys + c07NDataLayout + len(c07SameNameCases()) + c07NCfgLayout + c07NAppear() + p.nRand(ctx)
 }
 
 // datalayout part: the page's front-matter names no layout, layouts/base.vuego
@@ -612,6 +613,11 @@ func (p *c07) Gen(ctx core.Ctx, i int) any {
 	}
 	if i < c07NCfgLayout {
 		return c07CfgLayoutCase(i)
+	} else {
+		i -= c07NCfgLayout
+	}
+	if i < c07NAppear() {
+		return c07AppearCase(i)
 	}
 	return c07RandCase(r)
 }
@@ -946,6 +952,9 @@ func (p *c07) Exec(ctx core.Ctx, cc any) core.Obs {
 	var o core.Obs
 	if c.Part == "" {
 		return o
+	}
+	if c.Part == "appear" {
+		return c07ExecAppear(c)
 	}
 	exp := c07Reference(c)
 	files := map[string]string{}
